@@ -401,3 +401,57 @@ def rule_row_not_memoised(db: ProgramDB) -> List[Instance]:
                                 f"found for the first binding", line=give.lineno))
     out.append(inst("ROW-NOT-MEMOISED", HOLDS, se, "evaluation methods[no un-keyed memo of rows]", f"{n} evaluation methods examined"))
     return out
+
+
+# ---------------------------------------------------------------------------------- VARIABLE-DISPATCH
+def rule_variable_dispatch(db: ProgramDB) -> List[Instance]:
+    """Variable._evaluate__ is one chain of cases: bound already / ranges over a domain / takes the registry / is constructed or called.
+    Evaluated as a table: a variable that stands for a predicate is CALLED whether or not it has argument expressions (a predicate without
+    arguments is a predicate), a constructor term with arguments is constructed, and a variable that is inferred through explicit conclusions
+    only (no arguments, not a predicate) is not constructed by its own evaluation."""
+    from ..boolexpr import eval_bool
+    from ..facts import call_attr
+    out = []
+    m = db.method("Variable", "_evaluate__")
+    chain = [st for st in m.node.body if isinstance(st, ast.If)]
+    if not chain:
+        raise AnalysisError("Variable._evaluate__: the chain of cases was not found")
+    top = chain[-1]
+    bp = [p for p in m.positional_params[1:2]] or ["sources"]
+
+    def atom(e):
+        u = unparse(e)
+        if isinstance(e, ast.Compare) and len(e.ops) == 1 and isinstance(e.ops[0], (ast.In, ast.NotIn)) and unparse(e.comparators[0]) == bp[0]:
+            return ("!" if isinstance(e.ops[0], ast.NotIn) else "") + "BOUND"
+        return {"self._domain_": "DOMAIN", "self._is_inferred_": "INFERRED", "self._predicate_type_": "PRED", "self._child_vars_": "ARGS"}.get(u)
+
+    def constructs(stmts) -> bool:
+        return any(isinstance(c, ast.Call) and (call_attr(c) or "").startswith(("_yield_from_cache_or_instantiate", "_instantiate_new_values", "_call_user_code_"))
+                   for st in stmts for c in ast.walk(st))
+    cases = {
+        "a predicate without arguments": (dict(BOUND=False, DOMAIN=False, INFERRED=False, PRED=True, ARGS=False), True),
+        "a predicate with arguments": (dict(BOUND=False, DOMAIN=False, INFERRED=False, PRED=True, ARGS=True), True),
+        "an inferred constructor term": (dict(BOUND=False, DOMAIN=False, INFERRED=True, PRED=False, ARGS=True), True),
+        "a variable inferred through explicit conclusions only": (dict(BOUND=False, DOMAIN=False, INFERRED=True, PRED=False, ARGS=False), False),
+    }
+    for label, (env, want) in cases.items():
+        node, got = top, False
+        try:
+            while node is not None:
+                if bool(eval_bool(node.test, atom, env)):
+                    got = constructs(node.body)
+                    break
+                if len(node.orelse) == 1 and isinstance(node.orelse[0], ast.If):
+                    node = node.orelse[0]
+                else:
+                    got = constructs(node.orelse)
+                    break
+        except (AnalysisError, KeyError) as e:
+            out.append(inst("VARIABLE-DISPATCH", UNDECIDED, m, f"Variable._evaluate__[{label}]", f"case not decidable: {e}", line=top.lineno))
+            continue
+        ok = got == want
+        out.append(inst("VARIABLE-DISPATCH", HOLDS if ok else VIOLATION, m, f"Variable._evaluate__[{label}]",
+                        f"{'called / constructed' if got else 'left to the conclusions'}" if ok else
+                        f"{label} is {'constructed by its own evaluation' if got else 'never called: no case of the chain applies and the variable yields nothing'}"
+                        + ("" if got else " - an(entity(x, ready())) returns nothing whatever ready() returns"), line=top.lineno))
+    return out
